@@ -47,6 +47,7 @@ class G:
     leaves: set = field(default_factory=set)
     allow_fail: bool = False
     witnesses: list = field(default_factory=list)
+    focus: int | None = None  # argument that most guards compare with constants (value reuse across subtrees)
 
     def label(self):
         self.lid += 1
@@ -60,6 +61,13 @@ class G:
     def cond(self):
         """Returns (code pushing a 0/1 word, description, witness making it true, witness making it false)."""
         r = self.rnd
+        if self.focus is not None and r.random() < 0.6:
+            # the same argument is compared with (different) constants in several subtrees: what one branch
+            # learns about it (a == c) must not be visible in its siblings
+            i = self.focus
+            c = r.choice([1, 5, 7, 9, 42, 255])
+            self.add(i, c)
+            return arg(i) + [("PUSH", c), "EQ"], f"a{i}=={c:#x}", {i: c}, {}
         i = r.randrange(self.nargs)
         k = r.random()
         if k < 0.25:
@@ -165,7 +173,9 @@ def gen_test_contract(rnd: random.Random, ntests: int = 4, allow_fail: bool = Fa
     for t in range(ntests):
         nargs = rnd.randint(1, 3)
         g = G(rnd, nargs, slots, [set([0, 1, M256 - 1]) for _ in range(nargs)], allow_fail=allow_fail)
-        body, desc = g.tree(rnd.randint(1, 3), {})
+        if rnd.random() < 0.4:
+            g.focus = rnd.randrange(nargs)
+        body, desc = g.tree(rnd.randint(2, 3) if g.focus is not None else rnd.randint(1, 3), {})
         sig = f"check_t{t}(" + ",".join(["uint256"] * nargs) + ")"
         fns.append(Fn(sig, body))
         metas.append(TestMeta(sig, nargs, [sorted(s) for s in g.grid], g.witnesses, desc, g.uses_mul, g.uses_div, g.uses_fail, g.leaves))
